@@ -7,4 +7,6 @@ require (
 	github.com/anishathalye/porcupine v1.3.0
 )
 
+require go.uber.org/automaxprocs v1.5.2 // indirect
+
 replace github.com/TarsCloud/TarsGo => /repo
